@@ -11,7 +11,7 @@ for s in $seeds; do
   [ -f "seeded/$s/patch.diff" ] || continue
   p=$(python3 -c "import json,sys; print(json.load(open(sys.argv[1]))['property'])" "seeded/$s/meta.json")
   if ! git -C /repo apply "$ROOT/seeded/$s/patch.diff" 2>/dev/null; then echo "$s: patch does not apply"; continue; fi
-  out=$(./check "$p" quick 2>&1); rc=$?
+  out=$(VERIF_FAST=1 ./check "$p" quick 2>&1); rc=$?
   sig=$(echo "$out" | grep -E "signature:" | sed 's/ *signature: //' | sort -u | head -2 | tr '\n' ';')
   echo "$s: check $p rc=$rc $sig"
   [ $rc -eq 1 ] || missed=$((missed+1))
